@@ -441,9 +441,10 @@ Inductive ftype := TFile | TDir | TSymlink.
 Inductive namepart := PName | PStem | PSuffixes | PSuffix.
 Inductive cmp := CEq | CNe | CLt | CLe | CGt | CGe.
 
-Inductive tmatcher :=                 (* the TEXT-MATCHERs used under [contents] *)
+Inductive tmatcher :=                 (* TEXT-MATCHER under [contents] *)
 | TEmpty
 | TEquals (c : list N)
+| TOpaque (k : nat)                   (* any other TEXT-MATCHER (number k): its verdict on a text is an oracle *)
 | TNot (m : tmatcher).
 
 Inductive fmatcher :=                 (* FILE-MATCHER *)
@@ -451,7 +452,10 @@ Inductive fmatcher :=                 (* FILE-MATCHER *)
 | FType (t : ftype)
 | FName (part : namepart) (pat : nat)      (* name|stem|suffixes|suffix GLOB-PATTERN (pattern number) *)
 | FPath (pat : nat)                        (* path GLOB-PATTERN *)
+| FNameRe (part : namepart) (pat : nat)    (* name|stem|suffixes|suffix ~ REGEX (pattern number) *)
+| FPathRe (pat : nat)                      (* path ~ REGEX *)
 | FContents (m : tmatcher)
+| FRun (prog : nat)                        (* run PROGRAM (program number): path as last argument, exit code 0 = match *)
 | FDirContents (cfg : gencfg) (m : fsmatcher)
 | FNot (m : fmatcher)
 | FAnd (a b : fmatcher)
@@ -539,25 +543,27 @@ Fixpoint remove_path (p : path) (l : list path) : list path :=
 
 Definition text_eqb (a b : list N) : bool := name_eqb a b.
 
-Fixpoint eval_tm (m : tmatcher) (c : list N) : bool :=
-  match m with
-  | TEmpty => match c with [] => true | _ => false end
-  | TEquals c' => text_eqb c c'
-  | TNot m' => negb (eval_tm m' c)
-  end.
 
 Definition in_min (mn : option nat) (d : nat) : bool :=
   match mn with None => true | Some k => Nat.leb k d end.
 Definition at_max (mx : option nat) (d : nat) : bool :=
   match mx with None => false | Some k => Nat.eqb d k end.
 
+(** What the model cannot contain: the answers of external libraries and programs ([None] = the
+    table of the case has no answer: loud [EMiss]; for the last two [Some None] = HARD_ERROR). *)
+Record oracles := Oracles {
+  glob_str : nat -> name -> option bool;       (* [fnmatch.fnmatch(string, pattern number)] *)
+  glob_path : nat -> path -> option bool;      (* [PurePath(path).match(pattern number)] *)
+  re_str : nat -> name -> option bool;         (* [re.compile(regex number).search(string)] is not None *)
+  re_path : nat -> path -> option bool;        (* the same on [str(path)] *)
+  text_matches : nat -> list N -> option (option bool);   (* TEXT-MATCHER number k on a file with these contents *)
+  run_exit0 : nat -> path -> option (option bool) }.      (* PROGRAM number k with the path as last argument: exit code = 0 *)
+
 Section Oracles.
   (** The order in which [os.scandir] lists the directory at a path (from the top directory of the
       case): some permutation of its entries. *)
   Variable scandir : path -> dirc -> dirc.
-  (** [fnmatch.fnmatch(string, pattern number)], [PurePath(path).match(pattern number)] *)
-  Variable glob_str : nat -> name -> option bool.
-  Variable glob_path : nat -> path -> option bool.
+  Variable O : oracles.
 
   (** A lazily consumed iterator of files: the elements it yields before it either ends
       ([None]) or raises ([Some e]). *)
@@ -656,6 +662,16 @@ Section Oracles.
 
   Definition oracle (o : option bool) : res bool :=
     match o with Some b => Ok b | None => Err EMiss end.
+  Definition oracle2 (o : option (option bool)) : res bool :=
+    match o with Some (Some b) => Ok b | Some None => Err EHard | None => Err EMiss end.
+
+  Fixpoint eval_tm (m : tmatcher) (c : list N) : res bool :=
+    match m with
+    | TEmpty => Ok (match c with [] => true | _ => false end)
+    | TEquals c' => Ok (text_eqb c c')
+    | TOpaque k => oracle2 (text_matches O k c)
+    | TNot m' => match eval_tm m' c with Ok b => Ok (negb b) | r => r end
+    end.
 
   (** [list(model.files())] / counting loop: the iterator is consumed to its end *)
   Definition consume_all (s : stream) : res (list elem) :=
@@ -708,13 +724,16 @@ Section Oracles.
     | FType TFile => Ok (is_file (e_node e))
     | FType TDir => Ok (is_dir (e_node e))
     | FType TSymlink => Ok (is_symlink (e_node e))
-    | FName part pat => oracle (glob_str pat (name_part part (last_name (e_abs e))))
-    | FPath pat => oracle (glob_path pat (e_abs e))
+    | FName part pat => oracle (glob_str O pat (name_part part (last_name (e_abs e))))
+    | FPath pat => oracle (glob_path O pat (e_abs e))
+    | FNameRe part pat => oracle (re_str O pat (name_part part (last_name (e_abs e))))
+    | FPathRe pat => oracle (re_path O pat (e_abs e))
     | FContents tm =>
         match resolve (e_node e) with
-        | Some (File c) => Ok (eval_tm tm c)
+        | Some (File c) => eval_tm tm c
         | _ => Err EHard         (* [_hard_error_if_file_is_not_existing_of_expected_type] *)
         end
+    | FRun prog => oracle2 (run_exit0 O prog (e_abs e))
     | FDirContents cfg sm =>
         if is_dir (e_node e)
         then eval_fsm sm (FsModel (e_node e) (e_abs e) cfg None None)
